@@ -12,6 +12,13 @@ CHECKS = {
          "The domain is finite and covered completely by the solver, so this is the strongest bounded claim available short of a proof assistant.",
     note="Trusted: cbmc 6.11 front end/SAT back end, spec/gf256.h (8-step shift-xor definition), SDM transcription of GF2P8AFFINEQB. "
          "Field axioms are decided on the specification with a case split on one operand (quick: 6 values, thorough: all 256)."),
+ "C20": dict(
+    engine="x86sym", category="model_checking", design_ref="DESIGN.md §5 C20, §4",
+    technique="symbolic execution of the assembled kernels (own x86-64 interpreter -> z3 bit-vectors), all buffer bytes symbolic, every path decided by z3; CBMC for the portable C variant",
+    text="For every length 0..330 (thorough 0..700) and a set of alignments, the four assembled mem_zero_detect_* kernels are executed symbolically from their machine code with all bytes symbolic; "
+         "z3 decides on every feasible path that the return value is 0 iff all bytes are zero and the access monitor shows every load lies inside [buf,buf+len). Bounded model checking of the real binaries.",
+    note="Trusted: the interpreter's instruction semantics (cross-validated every run against native execution of the same objects), z3, nasm/ld/objdump. Lengths beyond the bound are outside the claim. "
+         "Dispatcher selection is C16."),
 }
 
 NOT_YET = {}
